@@ -25,6 +25,7 @@ type GenOpts struct {
 	Valid           bool   // honour min/max-elements, unique config leaf-lists, non-empty mandatory lists
 	NoOrdered       bool
 	OrderedSiblings bool // allow ordered lists that have sibling nodes in their parent container
+	ZeroLenBinary   bool // representation class: zero-length (non-nil) binary values
 }
 
 // DefaultGen is the baseline option set.
@@ -218,9 +219,17 @@ func (g *Gen) setField(sv reflect.Value, f *FieldInfo, path []PathElem, depth in
 		for i := 0; i < n; i++ {
 			ent := reflect.New(f.Elem.Elem())
 			p := extend(path, f.Path)
-			p[len(p)-1].Pos = i
-			g.fillStruct(ent.Elem(), p, depth+1, false)
+			p[len(p)-1].Pos = sl.Len()
+			for tries := 0; tries < 6 && g.structEmpty(ent.Elem()); tries++ {
+				g.fillStruct(ent.Elem(), p, depth+1, false)
+			}
+			if g.structEmpty(ent.Elem()) {
+				continue // an entry without any leaf has no observable content
+			}
 			sl = reflect.Append(sl, ent)
+		}
+		if sl.Len() == 0 {
+			return false
 		}
 		fv.Set(sl)
 		g.Tags["unkeyed"]++
@@ -446,9 +455,15 @@ func (g *Gen) binaryLen(yt *yang.YangType) int {
 		if hi > lo+16 {
 			hi = lo + 16
 		}
+		if lo == 0 && !g.Opt.ZeroLenBinary && hi > 0 {
+			lo = 1
+		}
 		return lo + g.Rng.Intn(hi-lo+1)
 	}
-	return g.Rng.Intn(6)
+	if g.Opt.ZeroLenBinary {
+		return g.Rng.Intn(6)
+	}
+	return 1 + g.Rng.Intn(5)
 }
 
 // unionValue builds a union value of interface type t through the generated
